@@ -11,6 +11,7 @@ Definition shrink_obs : Type := outcome (list (Z * Z) * bool).
 
 Inductive case :=
 | CVolt (amp off : Q) (res : Z) (vs : list Q) (o_np o_loop o_pub : outcome (list Z))
+| CVoltTol (amp off : Q) (res : Z) (vs : list Q) (o_np o_loop o_pub : outcome (list Z))
 | CMono (xs : list Q) (o_np o_loop o_pub : bool)
 | CWin (sr : Q) (ws : list (Q * Q)) (o_np o_loop o_pub : list (Z * Z))
 | CShrink (ws : list (Z * Z)) (o_np o_loop o_pub : shrink_obs)
@@ -42,8 +43,23 @@ Definition win_corr (strict : bool) (sr : Q) (ws : list (Q * Q)) (model obs : li
 (* the public entry point dispatches on `numba is None`; either variant is accepted for it *)
 Definition either {A} (e : A -> A -> bool) (m1 m2 o : A) : bool := e m1 o || e m2 o.
 
+(* tolerance stream: the model's exact codes may differ by one from the float codes near a half-way point *)
+Definition volt_tol_corr (amp off : Q) (res : Z) (vs : list Q) (model obs : outcome (list Z)) : bool :=
+  match model, obs with
+  | OErr, OErr => true
+  | ORet ms, ORet cs => (length cs =? length ms)%nat
+                        && forallb (fun p : (Q * Z) * Z =>
+                                      (snd (fst p) =? snd p)
+                                      || (code_tol_ok amp off res (fst (fst p)) (snd p) && (Z.abs (snd (fst p) - snd p) =? 1)))
+                                   (combine (combine vs ms) cs)
+  | _, _ => false
+  end.
+
 Definition check_corr (c : case) : bool :=
   match c with
+  | CVoltTol amp off res vs o_np o_loop o_pub =>
+      volt_tol_corr amp off res vs (volt_numpy amp off res vs) o_np && volt_tol_corr amp off res vs (volt_loop amp off res vs) o_loop
+      && volt_tol_corr amp off res vs (volt_public amp off res vs) o_pub
   | CVolt amp off res vs o_np o_loop o_pub =>
       if res <? 1 then volt_eqb OErr o_pub        (* the internal variants are only meaningful behind the guard *)
       else volt_eqb (volt_numpy amp off res vs) o_np && volt_eqb (volt_loop amp off res vs) o_loop
@@ -69,6 +85,8 @@ Definition check_corr (c : case) : bool :=
 
 Definition check_spec (c : case) : bool :=
   match c with
+  | CVoltTol amp off res vs o_np o_loop o_pub =>
+      spec_volt_tol amp off res vs o_pub && volt_eqb o_np o_loop && volt_eqb o_np o_pub
   | CVolt amp off res vs o_np o_loop o_pub =>
       spec_volt amp off res vs o_pub
       && (if res <? 1 then true else volt_eqb o_np o_loop && volt_eqb o_np o_pub)
